@@ -465,8 +465,21 @@ fn run_call(
             let mut res = Vec::new();
             let mut aux = Vec::new();
             let mut canon_ok = Vec::new();
+            let mut api_read: Vec<Value> = Vec::new();
             for s in &sets {
                 if sanitised {
+                    // the set as the API presents it: sizes of the set and of its projections read through the
+                    // set's OWN methods (they use the variable lists the set carries, not only its BDD)
+                    let counts = catch_unwind(AssertUnwindSafe(|| {
+                        let as_i64 = |x: String| x.parse::<i64>().unwrap_or(-1);
+                        vec![
+                            as_i64(s.exact_cardinality().to_string()),
+                            as_i64(s.colors().exact_cardinality().to_string()),
+                            as_i64(s.vertices().exact_cardinality().to_string()),
+                        ]
+                    }))
+                    .unwrap_or_else(|_| vec![-1, -1, -1]);
+                    api_read.push(json!(counts));
                     if st.canonical.is_none() {
                         st.canonical = SymbolicAsyncGraph::new(&bn).ok();
                     }
@@ -525,6 +538,9 @@ fn run_call(
             out.insert("res".into(), json!(res));
             out.insert("aux".into(), json!(aux));
             out.insert("canon".into(), json!(canon_ok));
+            if sanitised {
+                out.insert("api_read".into(), json!(api_read));
+            }
             if !sanitised {
                 raw = sets;
             }
